@@ -6,3 +6,4 @@ import Sml.Props.C14
 #print axioms Sml.C14.boundary_fresh
 #print axioms Sml.C14.pushAll_append
 #print axioms Sml.C14.concat
+#print axioms Sml.C14.fromBuf_eq_fresh
